@@ -145,6 +145,14 @@ class KGCond(list):
 
 
 class KGUndefined:
+    _instance = None
+
+    def __new__(cls):
+        # singleton: :undefined is recognised by identity, which must survive pickle and copy
+        if cls._instance is None:
+            cls._instance = super().__new__(cls)
+        return cls._instance
+
     def __repr__(self):
         return ":undefined"
 
